@@ -167,8 +167,9 @@ CHECKS.update({
                 'property DumpIsPure are checked by TLC; the replay parses '
                 'the real text with plain PyYAML (one document, no tag '
                 'tokens, data equal to the predicted projection), compares a '
-                'deep identity-aware snapshot of the object before/after and '
-                'dumps twice; sweeten call order compared with the history '
+                'deep identity-aware snapshot of the object before/after, '
+                'dumps twice, into a stream and with a dump function created '
+                'with the classes in the reverse order; sweeten call order compared with the history '
                 'variable. The dumps the repository\'s own tests and '
                 'documentation examples perform are recorded and validated by '
                 'TLC against Represent on class models extracted from the '
@@ -194,7 +195,10 @@ CHECKS.update({
              'results are compared with the same call in a fresh interpreter. '
              'LoadThreads.tla enumerates all interleavings of concurrent '
              'loads over the shared Constructor cell (CallsIsolated); the racy '
-             'schedule TLC finds is forced on the real code with events.',
+             'schedule TLC finds is forced on the real code with events; for '
+             'every ordered pair of load functions made from the same '
+             'classes for different document types a complete call of one '
+             'runs in a second thread while the other reads its stream.',
         note='Trusted: the fresh-interpreter result as the meaning of a call; '
              'thread interleavings are CPython\'s (stress with a 1 microsecond '
              'switch interval), not enumerated by TLC.'),
@@ -210,7 +214,8 @@ CHECKS.update({
              'with documents/values/options taken from the TLC explorations of '
              'the other specifications, through str, Path, text file, '
              'StringIO, BytesIO (UTF-8 and UTF-16) sources and file name, '
-             'Path, StringIO, open file sinks, with every Path.open handle '
+             'Path, StringIO, open file sinks and a stream that already holds '
+             'text, with every Path.open handle '
              'tracked (closed on success and on error).',
         note='Load/Dumps are uninterpreted in this module; encoding is the '
              'locale\'s; a sample of the exported sequences is replayed.'),
@@ -242,7 +247,9 @@ CHECKS.update({
              'x strict; the real Node methods must produce the predicted tree '
              '(or SeasoningError without modifying the node). Dash/underscore '
              'key renaming is character-level and checked exhaustively over '
-             'short keys by the harness.',
+             'short keys by the harness, as are two structure laws on the '
+             'real node graph (a transform of a tree gives a tree; explicit '
+             'item tags survive an inverse pair).',
         note='Inputs outside the documented domain (items without the key '
              'attribute, non-string key values) are generated, counted, not '
              'judged.'),
